@@ -393,7 +393,23 @@ def handle (op : String) (args : List String) : Option String :=
     | "removeInput" =>
       let pairs := removeInputClosure p (closureFuel p) [(x, a)] []
       let hyp := (p.find? x).isSome && RemInsOK pairs p
-      some s!"hyp={hyp} same={decide (deepGraph (ti.removeInputs pairs) (removeInput x a p) = pairs.foldl (fun g xq => g.map (remNodeIn xq.1 xq.2)) (deepGraph ti p))}"
+      -- the derived form: structural well-formedness + the seed condition imply `RemInsOK`
+      let hyp2 := (p.find? x).isSome && StructOK p && seedOK x a p
+      some s!"hyp={hyp} same={decide (deepGraph (ti.removeInputs pairs) (removeInput x a p) = pairs.foldl (fun g xq => g.map (remNodeIn xq.1 xq.2)) (deepGraph ti p))} derived={hyp2} implies={!hyp2 || hyp}"
+    | "removeOutput" =>
+      some s!"hyp={RemOutOK x a ti p} same={decide (deepGraph (ti.removeOutput x a) (outStep x a p) = (deepGraph ti p).map (remNodeOut x a))}"
+    | "removeCalls" =>
+      -- one pass of removeUnusedCalls and the loop, at the unfolding budget of the program
+      let plan := unusedCallPlan p
+      let n := graphFuel p
+      let lhs := deepGraphAt n n (ti.removeInputs plan.2) (removeInputs plan.2 (applyCallRemovals plan.1 p))
+      let rhs := plan.2.foldl (fun g xq => g.map (remNodeIn xq.1 xq.2)) (deepGraphKeepAt (keepOf plan.1) n n ti p)
+      let after := deepGraphAt n n TypeInfo.empty (removeUnused true [] p)
+      let before := deepGraphAt n n TypeInfo.empty p
+      let le := after.all fun n' => before.any fun m =>
+        n'.fqid == m.fqid && n'.callable == m.callable && n'.isPipe == m.isPipe && decide (n'.outputs = m.outputs)
+          && decide (n'.retained = m.retained) && n'.inputs.all (fun kv => m.inputs.contains kv)
+      some s!"hyp={StructOK p} same={decide (lhs = rhs) && le} removed={plan.1.length}"
     | "renameCallable" =>
       let hyp := WF p && FreshFor x b p && (p.find? x).isSome && RenCallOK x b ti (eraseIds p)
       some s!"hyp={hyp} same={decide (deepGraph (ti.renameCallable x b) (eraseIds (renameCallable x b p)) = (deepGraph ti (eraseIds p)).map (renNodeCallable x b))}"
@@ -409,6 +425,12 @@ def handle (op : String) (args : List String) : Option String :=
     | "removeInput" =>
       let pairs := removeInputClosure p (closureFuel p) [(x, a)] []
       some (showGraph (pairs.foldl (fun g xq => g.map (remNodeIn xq.1 xq.2)) (deepGraph ti p)))
+    | "removeOutput" =>
+      -- removeOutputPlain: the parameter, then the cascade of the inputs it leaves unbound
+      let pairs := match p.find? x with
+        | some xc => if xc.isPipe then removeInputClosure p (closureFuel p) ((unboundInputs p xc [a] []).map (fun i => (x, i))) [] else []
+        | none => []
+      some (showGraph (pairs.foldl (fun g xq => g.map (remNodeIn xq.1 xq.2)) ((deepGraph ti p).map (remNodeOut x a))))
     | _ => none
   | "graph", [prog, types] => do
     let p ← pProgram (prog.splitOn " ") []
